@@ -1,5 +1,5 @@
-//! C17 (T2): every program enumerated by Scope.tla is executed with the real `scope::run!` on a multi-threaded runtime (many
-//! repetitions, random yields); the observed outcome must be one of the outcomes the specification reaches for that program,
+//! C17 (T2): every program enumerated by Scope.tla is executed with the real `scope::run!` - and, every third run, as a blocking
+//! scope with `scope::run_blocking!` and blocking tasks - on a multi-threaded runtime (many repetitions, random yields); the observed outcome must be one of the outcomes the specification reaches for that program,
 //! every task must have finished when the scope returns (JoinAll), and waiting tasks must observe the cancellation.
 //!   scope_drv <cases.ndjson> <report.json> <seed> <reps>
 use std::{
@@ -117,6 +117,61 @@ fn task<'env>(ctx: &'env ctx::Ctx, s: &'env scope::Scope<'env, String>, prog: Ar
     })
 }
 
+/// Blocking flavour of `task`: the same program with `spawn_blocking` / `spawn_bg_blocking` and blocking waits.
+fn task_b<'env>(ctx: &'env ctx::Ctx, s: &'env scope::Scope<'env, String>, prog: Arc<Prog>, i: usize, fin: Arc<AtomicUsize>, seed: u64) -> Result<(), String> {
+    let _f = Fin(fin.clone());
+    let mut r = rand::rngs::StdRng::seed_from_u64(seed.wrapping_mul(31).wrapping_add(i as u64));
+    for (j, t) in prog.tasks.iter().enumerate() {
+        if t.2 == i + 1 {
+            let (p, f) = (prog.clone(), fin.clone());
+            if t.1 {
+                s.spawn_blocking(move || task_b(ctx, s, p, j, f, seed));
+            } else {
+                s.spawn_bg_blocking(move || task_b(ctx, s, p, j, f, seed));
+            }
+        }
+    }
+    std::thread::sleep(std::time::Duration::from_micros(r.gen_range(0..200)));
+    match prog.tasks[i].0.as_str() {
+        "ok" => Ok(()),
+        "e1" => Err("e1".to_string()),
+        "e2" => Err("e2".to_string()),
+        "panic" => panic!("task panic"),
+        "wait_ok" => {
+            ctx.canceled().block();
+            Ok(())
+        }
+        "wait_e3" => {
+            ctx.canceled().block();
+            std::thread::sleep(std::time::Duration::from_micros(r.gen_range(0..100)));
+            Err("e3".to_string())
+        }
+        _ => unreachable!(),
+    }
+}
+
+/// the scope under test as a BLOCKING scope (`scope::run_blocking!`); must be called from a blocking thread
+fn inner_blocking(parent: &ctx::Ctx, p2: Arc<Prog>, fin2: Arc<AtomicUsize>, seed: u64, body_us: u64) -> Result<(), String> {
+    scope::run_blocking!(parent, |ctx, s| {
+        for (j, t) in p2.tasks.iter().enumerate() {
+            if t.2 == 0 {
+                let (p, f) = (p2.clone(), fin2.clone());
+                if t.1 {
+                    s.spawn_blocking(move || task_b(ctx, s, p, j, f, seed));
+                } else {
+                    s.spawn_bg_blocking(move || task_b(ctx, s, p, j, f, seed));
+                }
+            }
+        }
+        std::thread::sleep(std::time::Duration::from_micros(body_us));
+        match p2.body.as_str() {
+            "ok" => Ok(()),
+            "panic" => panic!("root task panic"),
+            _ => Err("e0".to_string()),
+        }
+    })
+}
+
 /// the scope under test, run under the caller's context `parent`
 async fn inner(parent: &ctx::Ctx, p2: Arc<Prog>, fin2: Arc<AtomicUsize>, seed: u64, body_yields: u32) -> Result<(), String> {
     scope::run!(parent, |ctx, s| async move {
@@ -131,7 +186,11 @@ async fn inner(parent: &ctx::Ctx, p2: Arc<Prog>, fin2: Arc<AtomicUsize>, seed: u
             }
         }
         yields(body_yields).await;
-        if p2.body == "ok" { Ok(()) } else { Err("e0".to_string()) }
+        match p2.body.as_str() {
+            "ok" => Ok(()),
+            "panic" => panic!("root task panic"),
+            _ => Err("e0".to_string()),
+        }
     })
     .await
 }
@@ -156,7 +215,17 @@ async fn run_prog(prog: Arc<Prog>, seed: u64) -> (String, usize) {
     let fin2 = fin.clone();
     let p2 = prog.clone();
     let body_yields = r.gen_range(0..6);
+    // every third run executes the program as a blocking scope on a blocking thread (the caller's context shapes 0-2 apply unchanged)
+    let blocking = seed % 3 == 0 && shape != 3;
     let h = tokio::spawn(async move {
+        if blocking {
+            let us = body_yields as u64 * 40;
+            return match tokio::task::spawn_blocking(move || inner_blocking(&parent, p2, fin2, seed, us)).await {
+                Ok(r) => r,
+                Err(e) if e.is_panic() => std::panic::resume_unwind(e.into_panic()),
+                Err(_) => Err("join_error".to_string()),
+            };
+        }
         if shape != 3 {
             return inner(&parent, p2, fin2, seed, body_yields).await;
         }
@@ -214,6 +283,9 @@ fn main() {
         for rr in 0..reps {
             rep.evaluations += 1;
             let s = seed.wrapping_mul(1_000_003).wrapping_add(rep.evaluations).wrapping_add(rr);
+            // what is being executed, for the wrapper: if this process dies (a scope that returns while its tasks still run leaves them with
+            // dangling borrows of the scope and its context), the program at fault is known
+            let _ = std::fs::write(format!("{}.cur", a[1]), json!({"prog": pv, "seed": s, "allowed": outs, "blocking": s % 3 == 0}).to_string());
             let p2 = prog.clone();
             let mut res = rt.block_on(async move { tokio::time::timeout(std::time::Duration::from_secs(5), run_prog(p2, s)).await });
             if res.is_err() {
